@@ -38,7 +38,7 @@ func omitSequence(original *CandidateNode, indices *CandidateNode) *CandidateNod
 func omitOperator(d *dataTreeNavigator, context Context, expressionNode *ExpressionNode) (Context, error) {
 	log.Debugf("Omit")
 
-	contextIndicesToOmit, err := d.GetMatchingNodes(context, expressionNode.RHS)
+	contextIndicesToOmit, err := d.GetMatchingNodes(context.ReadOnlyClone(), expressionNode.RHS)
 
 	if err != nil {
 		return Context{}, err
